@@ -25,6 +25,7 @@ type skGen struct {
 	center   int
 	span     int
 	clusters []int
+	inPanic  bool
 	clusterR int
 	negPct   int
 	values   []float64
@@ -210,7 +211,11 @@ func (sg *skGen) ensureValues(h int) {
 		e.sk().GetPositiveValueStore().ForEach(func(i int, c float64) bool { emit(i); return false })
 		e.sk().GetNegativeValueStore().ForEach(func(i int, c float64) bool { emit(i); return false })
 	})
-	_ = okp
+	if !okp && !sg.inPanic {
+		sg.inPanic = true
+		sg.line("xpanic %d foreach", h)
+		sg.inPanic = false
+	}
 }
 
 func (sg *skGen) obs(h int) {
@@ -688,6 +693,7 @@ func (sg *skGen) encchk(h int, omit bool) {
 	}
 	var bs []byte
 	if okp, _ := guard(func() { bs = encodeBytes(e, omit) }); !okp {
+		sg.line("xpanic %d encode", h)
 		return
 	}
 	sg.line("encchk %d %d %s", h, b2i(omit), showBytes(bs))
